@@ -95,6 +95,8 @@ func methodIsNot(cp CFGPath, verb string) bool {
 
 func runC19(c *Ctx) {
 	p := c.P
+	// clause shared with C02 (see DESIGN.md section 6a)
+	defer c.ImportRules("C02", "C02.10")
 	nse := noSideEffectsConst(p)
 
 	// ---------------------------------------------------------------- C19.1
